@@ -19,8 +19,8 @@ for p in props:
             'evidence_file': 'evidence/%s.json' % p,
             'replay_cmd_template': './bin/casketlint explain {path}',
             'engine': 'casketlint',
-            'level_claimed': {'category': 'other', 'text': text, 'design_ref': 'DESIGN.md §2 ' + p},
-            'level_note': 'Trusts go/types and x/tools v0.29.0 SSA construction; path-insensitive CFG reasoning; panics inside callees are not treated as exits; rule tables in /verif/checker are hand-confirmed against the source. Decides the named structural clauses, not the behaviour.',
+            'level_claimed': {'category': 'other', 'text': text, 'design_ref': 'DESIGN.md §A and §2 ' + p},
+            'level_note': 'Trusts go/types, x/tools v0.29.0 SSA construction and (for new helper functions) the behaviour-preserving source normalisation described in DESIGN.md A.3; CFG reasoning is path-insensitive except for constant-phi jump threading; panics inside callees are not treated as exits; rule tables in /verif/checker are hand-confirmed against the source. Decides the named structural clauses, not the behaviour.',
             'technique': tech,
         })
     else:
